@@ -799,7 +799,8 @@ fn main() {
             if !te_dts.1.is_empty() { bump("cases_with_default_export", &mut dist); }
             if !te_dts.0.is_empty() { bump("cases_with_named_value_export", &mut dist); }
             if te_js.0.len() > te_dts.0.len() { bump("cases_where_loader_exports_more", &mut dist); }
-            distinct.insert(format!("{}|{}", pid, text));
+            // non-trivial: the declaration file declares at least one value export (named or default)
+            if !dts_named.is_empty() || !dts_dflt.is_empty() { distinct.insert(format!("{}|{}", pid, text)); }
             cases.push(CaseOut {
                 term,
                 descr: json!({"project": pr.descr, "config_text": text, "config_format": format,
@@ -878,7 +879,7 @@ fn main() {
     write_meta(out, &json!({
         "evaluations": cases.len(),
         "distinct_nontrivial": distinct.len(),
-        "rule": "one case = (generated operation project, configuration text); both real printers run on it (op lists recorded, texts through SourceWriter); distinct = distinct (project, configuration text) pairs; every case is non-trivial: the document has >= 0 operations and >= 0 fragments but always at least one definition or an empty module, and the complete op lists are compared",
+        "rule": "one case = (generated operation project, configuration text); both real printers run on it (complete op lists recorded, texts through SourceWriter / the loader's print_js; a share also through the real nitrogql-cli binary and through node). distinct_nontrivial = distinct (project, configuration text) pairs whose declaration file declares at least one value export (named or default); cases with nothing declared are still compared but not counted",
         "samples": samples,
         "distribution": dist,
         "direct_failures": direct_failures,
